@@ -38,6 +38,7 @@ def run(prog, chk):
     prev_point(prog, chk)
     identical_operands(prog, chk)
     from props import geomalg
+    geomalg.check_sites(prog, chk, "C09")
     geomalg.check(prog, chk, "C09", floor=47)
 
 
